@@ -46,7 +46,7 @@ Report(v) ==
   /\ cur < MaxLen /\ MayContinue
   /\ LET e == cur + 1 IN
      \E row \in {UpdateAt(cache, e, v)} :
-       \E newlr \in {IF row.lrk # cache[cur].lrk THEN row.lrk ELSE optlr} :   \* written only when reduced
+       \E newlr \in {IF row.lrk # cache[cur].lrk THEN AllAt(row.lrk) ELSE optlr} :   \* written (every group) only when reduced
         /\ hist' = IF e <= Len(hist) THEN [hist EXCEPT ![e] = row] ELSE Append(hist, row)
         /\ cache' = [x \in DOMAIN cache \cup {e} |-> IF x = e THEN row ELSE cache[x]]
         /\ log' = Append(log, row)
@@ -64,7 +64,7 @@ Rollback(j) ==
   /\ rbs < MaxRb /\ ~fresh /\ j \in 0..(cur - 1)
   /\ cur' = j /\ rbs' = rbs + 1
   /\ cache' \in {cache, FromLog(log)}
-  /\ optlr' = IF j = 0 THEN 0 ELSE ckpt[j]
+  /\ optlr' = IF j = 0 THEN InitRates ELSE ckpt[j]
   /\ fresh' = TRUE
   /\ UNCHANGED <<p, hist, conts, ckpt, decl, log>>
 
@@ -86,7 +86,7 @@ RbReduceOnlyOnFire ==
   Reported => LET prevk == IF cur = 1 THEN 0 ELSE hist[cur - 1].lrk
               IN (hist[cur].lrk # prevk) <=> (decl.fired /\ NotNegligible(prevk))
 \* the optimizer holds the rate recorded for the epoch the loop stands at (also right after a roll-back)
-RbOptimizerHasRate == cur > 0 => optlr = hist[cur].lrk
+RbOptimizerHasRate == cur > 0 => optlr = AllAt(hist[cur].lrk)
 \* memory of the controller = what a new controller reads from the file; hist is that reading
 RbRestartTransparent == \E h \in {HistOfLog(log)} : hist = h /\ cache = FromHist(h)
 RbTypeOK == /\ cur \in 0..Len(hist) /\ rbs \in 0..MaxRb /\ Len(conts) = Len(log)
